@@ -156,6 +156,42 @@ def check_gni(ctx, case, wd=60):
         ctx.count('watchdog')
 
 
+def check_pad0(ctx, case):
+    """pad_width=0 (documented as an int >= 0): whatever single-IMF extraction does with it - reject it or use it - it must do to
+    the recording, its mirror image, its negative and its rescaled copy alike."""
+    from emd import sift as S
+    x, io, eo = np.asarray(case['x'], float), case['imf_opts'], case['envelope_opts']
+    ctx.case(digest(x, io, eo, 'pad0'), True)
+
+    def run(v):
+        try:
+            return S.get_next_imf(v.copy(), envelope_opts=dict(eo), extrema_opts={'pad_width': 0}, **io)[0]
+        except Exception as e:
+            return type(e).__name__
+    try:
+        with watchdog(60):
+            base, rev, neg, sc = run(x), run(x[::-1].copy()), run(-x), run(4.0 * x)
+    except WatchdogTimeout:
+        ctx.count('watchdog')
+        return
+    ctx.count('pad_width_0_comparisons')
+    outs = {'reversed': rev, 'negated': neg, 'rescaled': sc}
+    if isinstance(base, str):
+        ctx.count('pad_width_0_rejected:' + base)
+        for k, o in outs.items():
+            if not (isinstance(o, str) and o == base):
+                ctx.violation('pad0-outcome', 'get_next_imf(extrema_opts={pad_width: 0}) raises %s for the recording but %s for the %s recording'
+                              % (base, o if isinstance(o, str) else 'returns an IMF', k), case)
+                return
+        return
+    scale = max(np.abs(x).max(), 1e-300)
+    for k, o, want in (('reversed', rev, base[::-1]), ('negated', neg, -base), ('rescaled', sc, 4.0 * base)):
+        if isinstance(o, str) or o.shape != want.shape or np.abs(o - want).max() > (1e-9 * scale if k == 'reversed' else 0):
+            ctx.violation('pad0-' + k, 'with pad_width=0 the IMF of the %s recording is not the correspondingly transformed IMF of the recording (%s)'
+                          % (k, o if isinstance(o, str) else 'max diff %.3g' % (np.abs(o - want).max() if o.shape == want.shape else np.nan)), case)
+            return
+
+
 def check_sift(ctx, case):
     from emd import sift as S
     from emd.support import EMDSiftCovergeError
@@ -287,7 +323,7 @@ def check_mask(ctx, case):
         ctx.count('watchdog')
 
 
-CHECK = {'gni': check_gni, 'sift': check_sift, 'mask': check_mask}
+CHECK = {'gni': check_gni, 'sift': check_sift, 'mask': check_mask, 'pad0': check_pad0}
 
 
 def thread_cases(seed):
@@ -334,6 +370,8 @@ def run_shard(ctx):
         r = rng.random()
         routine = 'gni' if r < .6 else ('sift' if r < .85 else 'mask')
         case = gen_case(rng, routine)
+        if routine == 'gni' and rng.random() < .06 and not case.get('uint'):
+            routine = case['kind'] = 'pad0'
         CHECK[routine](ctx, case)
         if i < 3:
             ctx.sample({k: (np.round(v[:5], 4) if k == 'x' else v) for k, v in case.items()})
